@@ -16,12 +16,17 @@ res = {'name': name, 'repo_head': subprocess.run(['git', '-C', '/repo', 'rev-par
 
 
 def sh(cmd, timeout=1800, cwd=None):
+    import signal
     t0 = time.time()
+    p = subprocess.Popen(cmd, shell=True, cwd=cwd, stdout=subprocess.PIPE, stderr=subprocess.STDOUT, start_new_session=True)
     try:
-        p = subprocess.run(cmd, shell=True, cwd=cwd, stdout=subprocess.PIPE, stderr=subprocess.STDOUT, timeout=timeout)
-        return p.returncode, p.stdout.decode(errors='replace'), round(time.time() - t0, 1)
-    except subprocess.TimeoutExpired as e:
-        return 'timeout', (e.stdout or b'').decode(errors='replace'), round(time.time() - t0, 1)
+        o, _ = p.communicate(timeout=timeout)
+        return p.returncode, o.decode(errors='replace'), round(time.time() - t0, 1)
+    except subprocess.TimeoutExpired:
+        try: os.killpg(p.pid, signal.SIGKILL)      # the whole group: a demonstration that hangs must not be left running
+        except OSError: pass
+        o, _ = p.communicate()
+        return 'timeout', (o or b'').decode(errors='replace'), round(time.time() - t0, 1)
 
 
 try:
